@@ -501,6 +501,12 @@ class CNF(SimpleSequence[Clause]):
     def assert_k_of_n(self, k: int, in_list: Sequence[Var]):
         # TODO DOC
         # TODO: Describe this function's purpose.
+        if in_list and k > len(in_list):
+            # More than `len(in_list)` of `in_list` can never be true. (The
+            # comparison below would silently truncate `k` to the width of the
+            # sum.)
+            self.prepend(CNF([Clause(in_list[0]), Clause(~in_list[0])]))
+            return
         in_binary =  int_to_binary(k)
         sum_bits = self.pop_count(in_list, len(in_binary)+1)
         # Add zero padding to the left.
@@ -522,6 +528,14 @@ class CNF(SimpleSequence[Clause]):
         self._inequality_assertion(False, k, in_list)
 
     def _inequality_assertion(self, assert_less_than: bool, k: int, in_list: Sequence[Var]):
+        if in_list and assert_less_than and k > len(in_list):
+            # Fewer than `k` of `in_list` are always true; the subtraction
+            # below has no sign bit to spare when `k` is as wide as the sum.
+            return
+        if in_list and not assert_less_than and k >= len(in_list):
+            # More than `k` of `in_list` can never be true.
+            self.prepend(CNF([Clause(in_list[0]), Clause(~in_list[0])]))
+            return
         in_binary = int_to_binary(k)
         sum_bits = self.pop_count(in_list, len(in_binary)+1)
         k_vars = self.get_n_fresh(len(in_binary))
